@@ -19,7 +19,7 @@
 //    prefix (`fails panic:`, `fails far-from-seam`, `fails pairing-lost`, `fails avalanche-count`, `fails pairing`,
 //    `fails z-far`).
 //  * `c13-probe-mir <recipe>`, `c13-probe-rot <recipe> <k>`  measurement aids, never generated: the numbers behind
-//    THETA and FAR1/FAR2 (see the comments there) can be reproduced through `vphys obs`.
+//    THETA and FAR (see the comments there) can be reproduced through `vphys obs`.
 // Recipe: n<samples>/w<start>+<len>,../h<wire>@<t0>*<amp bits>,../p<col>.<row>@<t0>*<amp bits>,..[/l<wire>=<len>,..]
 use crate::util::*;
 use alpha_g_detector::alpha16::aw_map::TpcWirePosition;
@@ -513,23 +513,25 @@ fn rel_rot(e: &Ev, k: usize) -> String {
 // Class full_ring_256 (F3).  The documented failure: the one block of a full ring always starts at wire 0, so the
 // banded (non-circulant) solve sees the 255/0 seam as an edge; amplitudes near the seam change and rounding-level
 // residues of the cross-talk removal appear or disappear as extra avalanches anywhere on the ring.
-// MEASURED on the unchanged tree (900 full-ring events x 31 rotations, hits at and away from the seam, stray pads),
-// largest |difference of wire amplitude| / (largest deconvolved wire amplitude of the event) between an avalanche
-// and its rotated counterpart (a missing counterpart counts with its whole amplitude), by distance d of the wire
-// from the nearer of the two seams (the seam of the event and the seam of the rotated event):
-//    d=0: 4e-1   1: 2e-1   2: 3e-2   3: 6e-3   4: 1e-2   5: 5e-3   6: 7e-5   7: 1e-4   8: 8e-5   9..10: 1e-5
-//    11..12: 3e-6..1e-6   13..16: 4e-7..5e-8   17..24: 5e-10..4e-9   25..35: 3e-12..1e-15   36 and more: <= 5e-16
-// The edge effect decays geometrically (about a factor 3 per wire) and is NOT below 1e-9 at 6 wires; z and pad
-// amplitude of rounding-level avalanches (wire amplitude ~1e-16 of the largest) change at any distance because
-// such residues re-pair with stray pad hits.  The strongest relation found to hold, checked on every full-ring line:
-//    FAR1  more than 5 wires from both seams: an avalanche whose wire amplitude exceeds 1e-3 of the event's largest
-//          has a counterpart (same wire, same time bin) whose wire amplitude differs by at most 1e-3 of the largest;
-//    FAR2  more than 24 wires from both seams: an avalanche above 1e-6 of the largest has a counterpart with
-//          bit-identical z and pad amplitude and a wire amplitude within 1e-9 of the largest.
-// A violation of FAR1/FAR2 prints `fails far-from-seam`, a panic `fails panic:<message>`; only the documented
-// kind prints `fails rotation`.
-const FAR1: (usize, f64, f64) = (5, 1e-3, 1e-3); // (distance, significance, tolerance), both relative to the largest
-const FAR2: (usize, f64, f64) = (24, 1e-6, 1e-9);
+// MEASURED on the unchanged tree (two samples, 1600 full-ring events x 31 rotations = 49 600 pairs, hits at and away
+// from the seam, stray pads; reproduce with `c13-probe-rot`): largest |difference of wire amplitude| / (largest deconvolved wire
+// amplitude of the event) between an avalanche and its rotated counterpart (a missing counterpart counts with its
+// whole amplitude), by distance d of the wire from the nearer of the two seams (the seam of the event and the seam
+// of the rotated event):
+//    d=0: 5e-1   1: 2e-1   2: 1e-1   3: 5e-2   4: 1e-2   5: 5e-3   6: 2e-3   7: 4e-4   8: 4e-4   9: 6e-5  10: 8e-5
+//    11: 3e-5  12: 2e-6  13: 1e-6  14: 1e-6  15: 1e-7  16: 5e-8  17..18: 7e-8  19..20: 9e-9  21..22: 6e-10
+//    23: 2e-10  24: 1e-10  25: 5e-11  26: 2e-11  27..28: 3e-12  29..30: 5e-13  31..35: 1e-13..1e-15  36 and more: <= 3e-16
+// The edge effect decays geometrically (about a factor 2.5 per wire) and is NOT below 1e-9 at 6 wires (the
+// statement "more than 5 wires from the seam agree to 1e-9" is false: 2e-3 there); z and pad amplitude of
+// rounding-level avalanches (wire amplitude ~1e-16 of the largest) change at any distance because such residues
+// re-pair with stray pad hits.  The strongest relation found to hold, checked on every full-ring line, three tiers
+// by distance from both seams, amplitudes relative to the event's largest deconvolved wire amplitude:
+//    more than  5 wires: an avalanche above 2e-2 has a counterpart (same wire, same time bin) within 2e-2;
+//    more than 12 wires: an avalanche above 1e-4 has a counterpart within 1e-4;
+//    more than 24 wires: an avalanche above 1e-6 has a counterpart within 1e-9 with bit-identical z and pad amplitude.
+// (margins over the measured envelope: 10x, 100x, 20x; no false alarm on the 49 600 pairs.)  A violation prints `fails far-from-seam`, a panic
+// `fails panic:<message>`; only the documented kind prints `fails rotation`.
+const FAR: [(usize, f64, f64, bool); 3] = [(24, 1e-6, 1e-9, true), (12, 1e-4, 1e-4, false), (5, 2e-2, 2e-2, false)];
 
 fn rel_rot_fullring(e: &Ev, k: usize) -> String {
     if !e.present().iter().all(|x| *x) {
@@ -560,15 +562,17 @@ fn rel_rot_fullring(e: &Ev, k: usize) -> String {
             let (d, x) = (dist(c.0), f64::from_bits(c.3));
             let partner = to.iter().find(|g| g.0 == c.0 && g.1 == c.1);
             let dy = partner.map(|g| (x - f64::from_bits(g.3)).abs()).unwrap_or(x.abs());
-            if d > FAR2.0 && x > FAR2.1 * wmax {
-                let same = partner.map(|g| g.2 == c.2 && g.4 == c.4).unwrap_or(false);
-                if !same || !(dy <= FAR2.2 * wmax) {
-                    return Some(format!("{side} {} at {d} wires from the seam: counterpart {}", canon_str(c),
-                        partner.map(canon_str).unwrap_or("-".into())));
-                }
-            } else if d > FAR1.0 && x > FAR1.1 * wmax && !(dy <= FAR1.2 * wmax) {
-                return Some(format!("{side} {} at {d} wires from the seam: counterpart {}", canon_str(c),
-                    partner.map(canon_str).unwrap_or("-".into())));
+            let Some(&(_, signif, tol, exact)) = FAR.iter().find(|t| d > t.0) else { continue };
+            if !(x > signif * wmax) {
+                continue;
+            }
+            let same = !exact || partner.map(|g| g.2 == c.2 && g.4 == c.4).unwrap_or(false);
+            if !same || !(dy <= tol * wmax) {
+                return Some(format!(
+                    "{side} {} at {d} wires from the seam: counterpart {}",
+                    canon_str(c),
+                    partner.map(canon_str).unwrap_or("-".into())
+                ));
             }
         }
         None
